@@ -231,6 +231,25 @@ func (e *c17env) build(sp *c17spec) ugo.Object {
 		return a
 	case "nilarr":
 		return ugo.Array(nil)
+	case "alias":
+		// acyclic values whose arrays share storage: an array holding a slice of itself (same data pointer, other
+		// length), siblings sharing one array (script slice expressions produce exactly this)
+		switch sp.N {
+		case 0:
+			a := ugo.Array{ugo.Float(1), ugo.Float(2), ugo.Float(0)}
+			a[2] = a[:2]
+			return a // [1,2,[1,2]]
+		case 1:
+			a := ugo.Array{ugo.Float(0), ugo.Float(2), ugo.Float(3)}
+			a[0] = a[:0]
+			return a // [[],2,3]
+		case 2:
+			a := ugo.Array{ugo.Float(0), ugo.Float(2), ugo.Float(3), ugo.Float(4)}
+			a[0] = a[1:3]
+			return a // [[2,3],2,3,4]
+		}
+		a := ugo.Array{ugo.Float(5), ugo.Float(6)}
+		return ugo.Map{"a": a, "b": a[:1], "c": ugo.Array{a, a[:0], a}}
 	case "map", "sync":
 		m := make(ugo.Map, len(sp.E))
 		for i, x := range sp.E {
@@ -439,6 +458,10 @@ func c17specInfo(sp *c17spec) *c17info {
 			for i, x := range s.E {
 				strCheck(s.Keys[i]) // keys colliding after U+FFFD coercion cannot occur in rt values: rt requires valid UTF-8
 				walk(x, d+1)
+			}
+		case "alias":
+			if d+3 > in.depth {
+				in.depth = d + 3
 			}
 		case "nilarr", "nilmap", "nilbytes":
 			in.hasNil = true
@@ -665,6 +688,9 @@ func c17seedSpecs(thorough bool) []*c17spec {
 			l = append(l, &c17spec{K: "opts", Via: via, Q: strings.HasPrefix(via, "Quote"), H: !strings.Contains(via, "NoEscape"), E: []*c17spec{sp}})
 		}
 	}
+	for n := int64(0); n < 4; n++ {
+		l = append(l, &c17spec{K: "alias", N: n}, &c17spec{K: "arr", E: []*c17spec{{K: "alias", N: n}, {K: "alias", N: n}}})
+	}
 	// nesting around the cycle-detection threshold and cycles
 	depths := []uint64{998, 999, 1000, 1001, 1002, 1100, 1500}
 	if thorough {
@@ -672,7 +698,7 @@ func c17seedSpecs(thorough bool) []*c17spec {
 	}
 	for _, d := range depths {
 		for _, via := range []string{"arr", "map", "mix", "sync", "ptr"} {
-			for _, leaf := range []*c17spec{{K: "float", U: math.Float64bits(1.5)}, {K: "str", S: c17hex("x<\u2028")}, {K: "arr"}, {K: "func"}, {K: "undef"}} {
+			for _, leaf := range []*c17spec{{K: "float", U: math.Float64bits(1.5)}, {K: "str", S: c17hex("x<\u2028")}, {K: "arr"}, {K: "func"}, {K: "undef"}, {K: "alias", N: 0}, {K: "alias", N: 1}, {K: "alias", N: 2}, {K: "alias", N: 3}} {
 				l = append(l, &c17spec{K: "deep", Via: via, U: d, E: []*c17spec{leaf}})
 			}
 		}
